@@ -150,6 +150,28 @@ def routeMain (cfg : Config) (x : Ctx) (p : Peer) (req : Json) (params : Json) (
           let x := emit { x with st := { x.st with peers := removeRoute x.st.peers e.owner rid } } (.timerDestroy t)
           (x, errorFromRequest req INTERNAL_ERROR "reason" (k "could not send routing information"))
 
+theorem conns_removeRoute (ps : List Peer) (o : Nat) (rid : Bytes) : conns (removeRoute ps o rid) = conns ps := by
+  unfold removeRoute
+  exact conns_updatePeer (fun _ => rfl)
+
+theorem route_tail_ok {x1 : Ctx} (h2 : Inv x1.st) {o : Nat} (ho : o ∈ conns x1.st.peers) (t tns : Nat)
+    (msg : Json) (rid : Bytes) :
+    Ok x1 (send (emit x1 (.timerArm t tns)) o msg).1 ∧
+    Ok x1 (emit { (send (emit x1 (.timerArm t tns)) o msg).1 with
+      st := { (send (emit x1 (.timerArm t tns)) o msg).1.st with
+        peers := removeRoute (send (emit x1 (.timerArm t tns)) o msg).1.st.peers o rid } } (.timerDestroy t)) := by
+  have e1 : Ok x1 (emit x1 (.timerArm t tns)) := Ok.emit h2 _ (by intro c j b hh; cases hh)
+  have e2 : Ok (emit x1 (.timerArm t tns)) (send (emit x1 (.timerArm t tns)) o msg).1 :=
+    Ok.send (x := emit x1 (.timerArm t tns)) h2 ho msg
+  refine ⟨e1.trans e2, (e1.trans e2).trans ?_⟩
+  have h3 : Inv { (send (emit x1 (.timerArm t tns)) o msg).1.st with
+        peers := removeRoute (send (emit x1 (.timerArm t tns)) o msg).1.st.peers o rid } :=
+    (e1.trans e2).inv.removeRoute o rid
+  refine Ok.trans (y := { (send (emit x1 (.timerArm t tns)) o msg).1 with
+      st := { (send (emit x1 (.timerArm t tns)) o msg).1.st with
+        peers := removeRoute (send (emit x1 (.timerArm t tns)) o msg).1.st.peers o rid } })
+    (Ok.of_out_eq h3 (conns_removeRoute _ _ _) rfl) (Ok.emit h3 _ (by intro c j b hh; cases hh))
+
 theorem routeMain_ok (cfg : Config) {x : Ctx} (h : Inv x.st) {p : Peer} (hp : p ∈ x.st.peers) (req params : Json)
     (path : Bytes) (isState : Bool) {e : Element} (he : e.owner ∈ conns x.st.peers) (originId value : Option Json) :
     Ok x (routeMain cfg x p req params path isState e originId value).1 := by
@@ -171,27 +193,11 @@ theorem routeMain_ok (cfg : Config) {x : Ctx} (h : Inv x.st) {p : Peer} (hp : p 
             originId := originId, timer := x.st.nextTimer } rfl (mem_conns.2 ⟨p, hp, rfl⟩) (Nat.lt_succ_self _)
         have hc2 : ∀ (ps : List Peer) (r : Route), conns (updatePeer ps e.owner (fun q => { q with routes := q.routes ++ [r] })) = conns ps :=
           fun ps r => conns_updatePeer (fun _ => rfl)
+        have hx1 := route_tail_ok (x1 := { x with st := _ }) h2 (by rw [hc2]; exact he) x.st.nextTimer tns
+            (routedMessage (routedId originId x.st.uuid p.addrTok) path isState value) (routedId originId x.st.uuid p.addrTok)
         split
-        · refine ⟨by simpa using h2, by simpa using hc2 _ _, [Obs.send e.owner _ _, Obs.timerArm _ _], by simp [send_out], ?_⟩
-          intro c j b hm
-          simp only [List.mem_cons, List.not_mem_nil, or_false] at hm
-          rcases hm with hm | hm
-          · cases hm; exact he
-          · cases hm
-        · refine ⟨?_, ?_, [Obs.timerDestroy _, Obs.send e.owner _ _, Obs.timerArm _ _], by simp [send_out], ?_⟩
-          · have := h2.removeRoute e.owner (routedId originId x.st.uuid p.addrTok)
-            simpa using this
-          · simp only [emit_st, send_st]
-            show conns (Daemon.removeRoute _ _ _) = _
-            unfold Daemon.removeRoute
-            rw [conns_updatePeer (f := fun q => { q with routes := q.routes.filter (·.rid != routedId originId x.st.uuid p.addrTok) }) (fun _ => rfl)]
-            exact hc2 _ _
-          · intro c j b hm
-            simp only [List.mem_cons, List.not_mem_nil, or_false] at hm
-            rcases hm with hm | hm | hm
-            · cases hm
-            · cases hm; exact he
-            · cases hm
+        · exact Ok.trans (Ok.of_out_eq h2 (hc2 _ _) rfl) hx1.1
+        · exact Ok.trans (Ok.of_out_eq h2 (hc2 _ _) rfl) hx1.2
 
 theorem setOrCall_ok (cfg : Config) {x : Ctx} (h : Inv x.st) {p : Peer} (hp : p ∈ x.st.peers) (req : Json)
     (isState : Bool) : Ok x (setOrCall cfg x p req isState).1 := by
